@@ -176,10 +176,13 @@ def string_raw(draw):
 
 
 def judge_string(case, res):
-    raw, indent, with_label = case
+    raw, indent, with_label, eol = case
     a = env.load_asm()
     res.evaluations += 1
-    src = ('start:\n' if with_label else '') + indent + 'string ' + raw + '\n' + ('end_:\n' if with_label else '')
+    # (the line terminator - LF or CR LF - is not part of the text: "til end of line")
+    src = ('start:' + eol if with_label else '') + indent + 'string ' + raw + eol + ('end_:' + eol if with_label else '')
+    if eol != '\n':
+        res.count('string_crlf')
     exp = ir.unescape(raw).encode('utf-8')
     labels = {}
     try:
@@ -202,7 +205,7 @@ def judge_string(case, res):
 
 def string_job(n, shard):
     res = env.Result()
-    strat = st.tuples(string_raw(), st.sampled_from(['', '  ', '\t']), st.booleans())
+    strat = st.tuples(string_raw(), st.sampled_from(['', '  ', '\t']), st.booleans(), st.sampled_from(['\n', '\n', '\r\n']))
     env.run_hypothesis(judge_string, strat, n, env.derive(env.seed_value(), PROP, 'str', shard), res, env.load_known(), PROP, shrink=True)
     return res
 
